@@ -305,7 +305,7 @@ fn get_char_value(src: &[u8], len: usize, i: usize) -> Option<io::Result<Option<
 
 fn get_char_array_value(src: &[u8], len: usize, i: usize) -> Option<io::Result<Option<Value<'_>>>> {
     let result = get_string(src, len, i)?;
-    Some(result.map(|s| Some(Value::Array(Array::Character(Box::new(s))))))
+    Some(result.map(|s| Some(Value::Array(Array::Character(Box::new(Characters(s)))))))
 }
 
 fn get_string_value(src: &[u8], len: usize, i: usize) -> Option<io::Result<Option<Value<'_>>>> {
@@ -324,8 +324,64 @@ fn get_string_array_value(
     len: usize,
     i: usize,
 ) -> Option<io::Result<Option<Value<'_>>>> {
-    let result = get_string(src, len, i)?;
-    Some(result.map(|s| Some(Value::Array(Array::String(Box::new(s))))))
+    const MISSING: &str = ".";
+
+    let result = get_string(src, len, i)?.map(|s| match s {
+        MISSING => None,
+        _ => Some(Value::Array(Array::String(Box::new(Strings(s))))),
+    });
+
+    Some(result)
+}
+
+// BCF stores Character and String arrays as raw text: elements are separated by `,`, `.` is a
+// missing element, and nothing is percent-encoded. These views decode a sample's text like
+// `read_char_array_values` and `read_string_array_values` do.
+
+const ARRAY_DELIMITER: char = ',';
+
+struct Characters<'a>(&'a str);
+
+impl<'a> vcf::variant::record::samples::series::value::array::Values<'a, char> for Characters<'a> {
+    fn len(&self) -> usize {
+        self.0.split(ARRAY_DELIMITER).count()
+    }
+
+    fn iter(&self) -> Box<dyn Iterator<Item = io::Result<Option<char>>> + '_> {
+        const MISSING: char = '.';
+
+        Box::new(
+            self.0
+                .split(ARRAY_DELIMITER)
+                .map(|t| match t.chars().next() {
+                    Some(MISSING) => Ok(None),
+                    Some(c) => Ok(Some(c)),
+                    None => Err(io::Error::new(
+                        io::ErrorKind::InvalidData,
+                        "invalid character",
+                    )),
+                }),
+        )
+    }
+}
+
+struct Strings<'a>(&'a str);
+
+impl<'a> vcf::variant::record::samples::series::value::array::Values<'a, Cow<'a, str>>
+    for Strings<'a>
+{
+    fn len(&self) -> usize {
+        self.0.split(ARRAY_DELIMITER).count()
+    }
+
+    fn iter(&self) -> Box<dyn Iterator<Item = io::Result<Option<Cow<'a, str>>>> + '_> {
+        const MISSING: &str = ".";
+
+        Box::new(self.0.split(ARRAY_DELIMITER).map(|t| match t {
+            MISSING => Ok(None),
+            _ => Ok(Some(Cow::from(t))),
+        }))
+    }
 }
 
 fn invalid_value_error() -> io::Error {
